@@ -270,6 +270,7 @@ func smallInline(fn *ssa.Function) bool {
 }
 
 func runC12(c *Ctx) {
+	defer checkStoreLooksUp(c, "C12.R5", "GetPublicKeyScopes", 2, 3, 4)
 	defer checkConfigGetters(c, "C12.R4", "GetScopeStrategy", "GetAudienceStrategy")
 	const rule = "C12.R1"
 	issueSinks := []string{".IssueAuthorizeCode", ".CreateAuthorizeCodeSession", ".CreateAccessTokenSession", ".GenerateAccessToken", ".GenerateAuthorizeCode", ".GenerateIDToken", ".IssueImplicitIDToken", ".IssueImplicitAccessToken"}
